@@ -66,6 +66,18 @@ func TestC08(t *testing.T) {
 			rec.Fail(t, sig, map[string]any{"schedule": "ring {1<<44, 2<<44, 3<<44}; a client write holds 3<<44's KV barrier; 5<<43's join request enters 3<<44 and waits; 2<<44 crashes and 3<<44's predecessor check drops it; the write finishes", "problem": p}, "%s", p)
 		}
 	}
+	if p := joinWhilePredecessorPointerStale(); p != "" {
+		if len(p) > 13 && p[:13] == "precondition:" {
+			rec.Inconclusive("scenario-precondition")
+			t.Logf("stale-predecessor-pointer scenario: %s", p)
+		} else {
+			rec.Fail(t, "join-request-not-answered-cleanly-while-predecessor-pointer-stale", map[string]any{"schedule": "ring {1<<44, 2<<44, 3<<44}; 2<<44 leaves gracefully; before 3<<44 notices, 5<<43 asks 3<<44 to join", "problem": p}, "%s", p)
+		}
+	} else {
+		rec.Case(true, "scenario:join-while-predecessor-pointer-stale", func() any {
+			return map[string]any{"scenario": "join request to a node whose recorded predecessor has just left"}
+		}, "scenario:join-while-predecessor-pointer-stale")
+	}
 	// regression tier: shrunk failures found earlier, replayed without the library
 	for _, p := range c08Regressions {
 		c08Run(t, rec, p, sigPanic)
@@ -77,6 +89,7 @@ func TestC08(t *testing.T) {
 			Vias:       rapid.SliceOfN(rapid.IntRange(0, 1<<20), len(ids), len(ids)).Draw(t, "vias"),
 			SIdx:       rapid.IntRange(0, 4).Draw(t, "S"),
 			PredNil:    rapid.IntRange(0, 3).Draw(t, "scenario") > 0,
+			PredLeaves: rapid.IntRange(0, 2).Draw(t, "predLeaves") == 0,
 			NotifyDrop: rapid.SampledFrom([]int{0, 1, 3, 8, 100000}).Draw(t, "notifyDrops"),
 			Kind:       rapid.SampledFrom([]string{"S-1", "pred+1", "mid", "uniform", "S+1", "duplicate"}).Draw(t, "joinerKind"),
 			Uniform:    rapid.Uint64Range(0, ringMax).Draw(t, "joiner"),
@@ -93,6 +106,7 @@ type c08Params struct {
 	Vias       []int    `json:"vias"`
 	SIdx       int      `json:"s_idx"`
 	PredNil    bool     `json:"pred_nil"`
+	PredLeaves bool     `json:"pred_leaves"`
 	NotifyDrop int      `json:"notify_drops"`
 	Kind       string   `json:"joiner_kind"`
 	Uniform    uint64   `json:"uniform"`
@@ -169,8 +183,19 @@ func c08Run(t tfail, rec *ev.Recorder, p c08Params, sigPanic string) {
 			rec.Inconclusive("successor-lists-too-short-to-survive-crash")
 			return
 		}
-		r.net.Crash(r.members[predID])
-		S.Node.VerifCheckPredecessor()
+		if p.PredLeaves {
+			// the predecessor leaves gracefully and S has NOT noticed yet: its predecessor pointer
+			// still names the departed node when the join request arrives
+			cs.Scenario = "pred-left-stale-pointer"
+			r.members[predID].Node.Leave()
+			if r.members[predID].Node.VerifState() != chord.Left {
+				rec.Inconclusive("predecessor-leave-did-not-complete")
+				return
+			}
+		} else {
+			r.net.Crash(r.members[predID])
+			S.Node.VerifCheckPredecessor()
+		}
 		liveSorted = nil
 		for _, id := range sorted {
 			if id != predID {
